@@ -18,7 +18,8 @@ RULE = ("(densities) the exported distribution classes evaluated through pm.logp
         "prior.sample(return_logprobs=True, generate_linear on/off): ln_prior minus the sum of the declared log-densities "
         "of the sampled parameters must be one constant over the rows. Non-trivial: every configuration with a "
         "non-default unit, a non-zero mean, a cap, offsets or poly_trend>=2; every density case with points on both "
-        "sides of a support edge.")
+        "sides of a support edge."
+        " Also: logp at x <= 0 and at e up to 0.99999; search 'conditional': priors whose e / s / K depend on P and symbolic-RV priors (pm.Truncated period, pm.Mixture jitter), probability-integral-transform KS test and ln_prior up to a constant.")
 SHARDS = {"quick": 4, "thorough": 16}
 BUDGET = {"quick": 85, "thorough": 800}
 
